@@ -297,6 +297,9 @@ impl<A: OneApi> OneInner<A> {
                 ctx.check("C12", "pending-receiver-woken-at-send-or-close", m != Model::Open, s.woken(), || {
                     format!("slot {} is pending, channel state {:?}, and it has not been woken through its latest waker", i, m)
                 });
+                ctx.check("C11", "every-pending-future-woken-after-close", m == Model::ClosedEmpty || m == Model::Taken, s.woken(), || {
+                    format!("slot {} is pending after close (state {:?}) and was not woken", i, m)
+                });
             }
         }
         self.slots.check_terminated(ctx);
